@@ -3,7 +3,7 @@
    instr: p<m> | r | w<ms> | t<o><n> (waittill) | y<o><n>+ (waittill_any) | n<o><n> (notify)
         | e<o><n> (endon) | d<o> (delete) | s<o> (spawn) | th[ <instr>* ] | wt[ <instr>* ]
         | end | end<v>          (o = slot digit, n = a|b|c)
-   prints per op  m <prints|-> idle=<0|1> ns=<scripts> nt=<threads> tm=<0|1> sz=<9 sizes> ub=<0|1> stale=<0|1>  (model)
+   prints per op  m <prints|-> idle=<0|1> ns=<scripts> nt=<threads> tm=<0|1> sz=<9 sizes> stale=<0|1>  (model)
    then  s ...  (specification) *)
 let sname_of (c : char) : sname = match c with 'a' -> NA | 'b' -> NB | _ -> NC
 let digit (c : char) : n = n_of_int (Char.code c - 48)
@@ -53,9 +53,9 @@ let pr_str ((t, v) : pr) : string =
 
 let obs_str (o : obs) : string =
   let d = if o.prints = [] then "-" else String.concat "," (List.map pr_str o.prints) in
-  Printf.sprintf "%s idle=%d ns=%d nt=%d tm=%d sz=%s ub=%d stale=%d" d (if o.idle then 1 else 0)
+  Printf.sprintf "%s idle=%d ns=%d nt=%d tm=%d sz=%s stale=%d" d (if o.idle then 1 else 0)
     (int_of_nat o.nscripts) (int_of_nat o.nthreads) (if o.timing then 1 else 0)
-    (ilist (List.map int_of_nat o.sizes)) (if o.undefined then 1 else 0) (if o.stale then 1 else 0)
+    (ilist (List.map int_of_nat o.sizes)) (if o.stale then 1 else 0)
 
 let () =
   let lines = read_lines stdin in
